@@ -258,7 +258,7 @@ class FaultFile:
 class Layer:
     """patches open / os.replace / os.rename for paths below `root` while active"""
 
-    def __init__(self, root, crash, exc):
+    def __init__(self, root, crash, exc, watch=None):
         self.root = os.path.realpath(root)
         self.crash = crash          # "none" | "open" | "close" | "replace" | ["write", k, partly]
         self.exc = exc
@@ -266,6 +266,37 @@ class Layer:
         self.events = []
         self.triggered = False
         self.armed = True
+        self.watch = watch          # the run's own output file: looked at before every intercepted operation
+        self.mid = None             # first operation before which the output file differed from its state at the start
+        self._w0 = None
+        self._s0 = None
+
+    def _peek(self, p):
+        try:
+            with self._open(p, "rb") as f:
+                return f.read()
+        except OSError:
+            return None
+
+    @staticmethod
+    def _sig(p):
+        try:
+            st = os.stat(p)
+            return (st.st_ino, st.st_size, st.st_mtime_ns)
+        except OSError:
+            return None
+
+    def probe(self, what):
+        """the state between two operations is what a generator that stops there (killed, any exception) leaves"""
+        if self.watch is None or self.mid is not None:
+            return
+        sig = self._sig(self.watch)
+        if sig == self._s0:
+            return                   # same inode, size and modification time: not written to since the start
+        self._s0 = sig
+        now = self._peek(self.watch)
+        if now != self._w0:
+            self.mid = {"before": what, "content": None if now is None else now.decode("utf-8", "replace")}
 
     def inside(self, p):
         try:
@@ -282,6 +313,7 @@ class Layer:
 
     def open(self, file, mode="r", *a, **kw):
         if self.inside(file) and any(c in mode for c in "wax+"):
+            self.probe("open")
             self.events.append(["open", os.path.basename(os.fspath(file)), mode])
             if self.armed and self.crash == "open":
                 self.fire()
@@ -291,6 +323,7 @@ class Layer:
     def on_write(self, f, data):
         k = self.writes
         self.writes += 1
+        self.probe("write %d" % k)
         if self.armed and isinstance(self.crash, list) and self.crash[0] == "write" and self.crash[1] == k:
             if self.crash[2] and len(data) > 1:
                 f.write(data[: max(1, len(data) // 2)])
@@ -299,12 +332,14 @@ class Layer:
         return f.write(data)
 
     def on_flush(self, f, what):
+        self.probe(what)
         self.events.append([what])
         if self.armed and self.crash == "close":
             self.fire()
 
     def replace(self, src, dst, *a, **kw):
         if self.inside(dst):
+            self.probe("replace")
             self.events.append(["replace", os.path.basename(os.fspath(src)), os.path.basename(os.fspath(dst))])
             if self.armed and self.crash == "replace":
                 self.fire()
@@ -312,6 +347,7 @@ class Layer:
 
     def rename(self, src, dst, *a, **kw):
         if self.inside(dst):
+            self.probe("rename")
             self.events.append(["rename", os.path.basename(os.fspath(src)), os.path.basename(os.fspath(dst))])
             if self.armed and self.crash == "replace":
                 self.fire()
@@ -319,17 +355,22 @@ class Layer:
 
     def remove(self, p, *a, **kw):
         if self.inside(p):
+            self.probe("remove")
             self.events.append(["remove", os.path.basename(os.fspath(p))])
         return self._remove(p, *a, **kw)
 
     def unlink(self, p, *a, **kw):
         if self.inside(p):
+            self.probe("remove")
             self.events.append(["remove", os.path.basename(os.fspath(p))])
         return self._unlink(p, *a, **kw)
 
     def __enter__(self):
         self._open, self._replace, self._rename = builtins.open, os.replace, os.rename
         self._remove, self._unlink, self._ioopen = os.remove, os.unlink, io.open
+        if self.watch is not None:
+            self._s0 = self._sig(self.watch)
+            self._w0 = self._peek(self.watch)
         builtins.open = self.open
         io.open = self.open
         os.replace, os.rename, os.remove, os.unlink = self.replace, self.rename, self.remove, self.unlink
@@ -463,7 +504,13 @@ class Workspace:
         if not os.path.isfile(tpath):
             return "other:-1"
         with open(tpath, encoding="utf-8", errors="replace") as f:
-            content = canon_text(f.read())
+            return self.state_of(tpath, f.read(), texts)
+
+    def state_of(self, tpath, content, texts):
+        """classification of `content` (None = no file) as a content of output file `tpath`"""
+        if content is None:
+            return "absent"
+        content = canon_text(content)
         mine = [(i, t) for i, t in enumerate(texts) if self.tpaths[i] == tpath]
         for i, t in mine:
             if content == t:
@@ -509,7 +556,10 @@ class Prop(Check):
     ID = "C31"
     LEAN_MODULE = "TextxVerif.Props.C31"
     THEOREMS = ["GenFile.C31_atomic", "GenFile.C31_complete", "GenFile.C31_history", "GenFile.C31_no_skip",
-                "GenFile.C31_skip_iff", "GenFile.C31_pinned_false", "GenFile.C31_pinned_overwrite_false"]
+                "GenFile.C31_skip_iff", "GenFile.C31_pinned_false", "GenFile.C31_pinned_overwrite_false",
+                "GenFile.C31_ops_summary", "GenFile.C31_prefix_atomic", "GenFile.C31_mid_flag", "GenFile.C31_history_exact",
+                "GenFile.C31_lastDone_spec", "GenFile.C31_failed_runs_keep", "GenFile.C31_last_writer",
+                "GenFile.C31_history_from", "GenFile.C31_no_skip_from"]
     DRIVER = "Drivers/GenFile.lean"
     QUICK_CASES = 12       # inputs (about 400-520 cases); every write of every input gets its own case (see gen)
     THOROUGH_CASES = 200
@@ -531,7 +581,10 @@ class Prop(Check):
                 "(GenFile.exportNew/genFile/runAll; an export = the sequence of its write calls, any failing call "
                 "propagates); tie X: per run outcome (done/skipped/failed), state of every output file of the history "
                 "(absent / complete output of input i / anything else) and leftover files vs the model "
-                "(GenFile.traceOn) on the same history; the bodies of metamodel_export_tofile / model_export_to_file are "
+                "(GenFile.traceOn) on the same history; operation level (GenFile.program/opsTrace, proved to add up to "
+                "exportNew): the output file is looked at before every intercepted open / write / flush / close / "
+                "replace / remove of a run and must be as at the start of the run until the export has completed "
+                "(model: no operation before the last has an effect outside the temporary sibling, C31_mid_flag); the bodies of metamodel_export_tofile / model_export_to_file are "
                 "not modelled statement by statement: that each of their write calls lets a failure propagate is "
                 "observed on the implementation (a swallowed failure is an outcome mismatch and an oracle failure); "
                 "not exhibited: OS-level durability (power loss, non-atomic rename), failures of os.remove, a stale "
@@ -631,7 +684,7 @@ class Prop(Check):
             for run in case["runs"]:
                 i = run["input"]
                 out_dir = None if case.get("beside") else ws.out
-                with Layer(ws.d, run["crash"], run.get("exc", "OSError")) as lay:
+                with Layer(ws.d, run["crash"], run.get("exc", "OSError"), watch=ws.tpaths[i]) as lay:
                     raised = None
                     try:
                         ws.call(i, out_dir, run["overwrite"])
@@ -646,6 +699,8 @@ class Prop(Check):
                     "state": states[ws.targets.index(ws.tpaths[i])],
                     "states": states,
                     "extra": ws.extras(),
+                    "mid": None if lay.mid is None else
+                    {"before": lay.mid["before"], "state": ws.state_of(ws.tpaths[i], lay.mid["content"], texts)},
                     "writes": lay.writes,
                     "events": [e for e in lay.events if e[0] != "write!"][:12],
                 })
@@ -683,7 +738,7 @@ class Prop(Check):
                 crash = "none"
             runs.append({"path": obs["paths"][i], "chunks": self.chunks(obs, i), "overwrite": run["overwrite"],
                          "crash": crash})
-        return {"op": "history", "algo": "new", "runs": runs, "paths": sorted(set(obs["paths"]))}
+        return {"op": "history", "algo": "new", "runs": runs, "paths": sorted(set(obs["paths"])), "ops": True}
 
     @staticmethod
     def unreachable(crash, n):
@@ -726,7 +781,20 @@ class Prop(Check):
                     return f"run {k}: output file {p} is {s} after the run, model says {ms}"
             if bool(st["extra"]) != any(mtmps):
                 return f"run {k}: leftover files {st['extra']}, model says temporary present = {any(mtmps)}"
+            # operation level: is the output file touched before the last operation of the export
+            info = out["steps"][k].get("ops")
+            if info is not None:
+                m_mid = not info["midSame"] or (mo == "failed" and not info["lastSame"])
+                if m_mid != self.mid_bad(st):
+                    return (f"run {k}: output file modified while the export was under way: implementation "
+                            f"{st.get('mid')}, model ({info['n']} operations, the last one {info['last']}) says {m_mid}")
         return None
+
+    @staticmethod
+    def mid_bad(st):
+        """the output file held something other than a complete output at some point before the end of the run"""
+        mid = st.get("mid")
+        return bool(mid) and not mid["state"].startswith("complete")
 
     # --------------------------------------------------------------- oracle
     def oracle(self, case, obs):
@@ -737,6 +805,10 @@ class Prop(Check):
             good = state == "absent" or state.startswith("complete")
             if st["extra"]:
                 return f"run {k}: files left behind next to the output: {st['extra']} (after {run['crash']}, raised {st['raised']})"
+            if self.mid_bad(st):
+                # "fails at any point": a generator that stops between two file operations leaves what is there then
+                return (f"run {k}: before operation '{st['mid']['before']}' of the export the output file was already "
+                        f"{st['mid']['state']} (it was {prev} before the run) — a generator that fails there leaves it so")
             for p, (a, b) in enumerate(zip(prevs, st["states"])):
                 if p != own and a != b:
                     return f"run {k} (for output file {own}) changed output file {p} from {a} to {b}"
